@@ -42,6 +42,17 @@ CHECKS["C16"] = dict(
     modelled="the five response builders, createPacket, makeRedirectFlags (hand transcription); main.go's config-to-flags mapping "
              "is covered by C18's real-binary runs.")
 
+CHECKS["C08"] = dict(
+    text="Specification frame (Spec/Framing.v) vs the transcription of readMessage/readHeader as a per-read state machine. "
+         "Proved for all well-formed packet sequences and all segmentations delivering each packet alone in a read or cut once "
+         "with a first part <= 4096: processed packets = framed packets (C08_partial); a length field below the header size and a "
+         "never-completed packet end the tunnel with an error. The full statement is refuted on the pinned code by three "
+         "vm_compute witnesses (coalesced packets, >= 3 fragments, first fragment > 4096), recorded as known findings with narrow "
+         "signatures; the real Processor is run segmented and unsegmented on every case and compared.",
+    design="7/C08", technique="Coq proof (partial theorem by induction over packets + refutation witnesses) + extracted-model correspondence",
+    modelled="readMessage, readHeader (hand transcription). Partial: the full-strength statement is false of the pinned code "
+             "(known findings); websocket/legacy read granularity is not driven at this layer.")
+
 NOT_YET = {}
 
 
